@@ -698,7 +698,7 @@ def rule_subpatterns(rep, crate):
                             elif fn.edge_dominates((c['bb'], c['f']), bi):
                                 edge = 'bytes'
                         vals[edge] = cb.decode()
-                    rep.inst(rc, 'subpattern-new:flag', detail=vals)
+                    rep.inst(rc, 'subpattern-new:flag', detail={str(k): v for k, v in vals.items()})
                     if not okflag or vals != {'unicode': 'u', 'bytes': '-u'}:
                         rep.viol(rc, 'subpattern-new:flag', 'the group flag is %s, expected "u" exactly when the literal is a str literal and "-u" for byte literals (selected by Literal::unicode() only)' % vals, loc(fn))
                     # any switch in the function other than the literal kind one is a foreign influence
@@ -1538,6 +1538,35 @@ def rule_subpattern_names(rep, crate):
     for bad in ['(?&)', '(?&a-b)', '(?& a)', '(?&a b)']:
         if g.search(bad):
             rep.viol(rid, 'subpattern-regex:reference-spurious:%s' % bad, 'the reference regex %r matches inside %r' % (pats[gk][0], bad), loc(pats[gk][1]))
+
+
+def rule_dfa_config(rep, crate):
+    rid = rep.rule('M-C01a', 'the reference automaton is the one the property speaks of: in Graph::new every dense::Config::match_kind receives MatchKind::All (all matches, hence the longest, are visible), start_kind receives StartKind::Anchored, the start state is universal_start_state(Anchored::Yes), and build_many_from_hir is given the leaves\' own patterns in leaf order (pattern id == leaf id; no filter / reorder adapter in the slice)', floor=4)
+    fn = crate.fns.get('graph::Graph::new')
+    if not rep.anchor(rid, 'fn Graph::new', fn is not None):
+        return
+    want = [(r'dfa::dense::Config::match_kind$', 1, 'agg:regex_automata::MatchKind::All{}', 'match kind'),
+            (r'dfa::dense::Config::start_kind$', 1, 'agg:regex_automata::dfa::StartKind::Anchored{}', 'start kind'),
+            (r'Automaton>::universal_start_state$', 1, 'agg:regex_automata::Anchored::Yes{}', 'anchoring of the start state')]
+    for pat, idx, val, what in want:
+        calls = find_calls(fn, pat)
+        rep.inst(rid, 'dfa-config:%s' % what, detail=[desc(fn, t['args'][idx]) for _b, t in calls])
+        if not calls:
+            rep.viol(rid, 'dfa-config:missing:%s' % what, 'no call sets the %s of the automaton' % what, loc(fn))
+        for b, t in calls:
+            if desc(fn, t['args'][idx]) != val:
+                rep.viol(rid, 'dfa-config:%s' % what, 'the %s is %s, expected %s' % (what, desc(fn, t['args'][idx]), val), loc(fn, t['line']))
+    builds = find_calls(fn, r'thompson::Compiler::build_many_from_hir$')
+    rep.inst(rid, 'dfa-config:patterns', detail=len(builds))
+    if len(builds) != 1:
+        rep.viol(rid, 'dfa-config:build', 'expected one build_many_from_hir call, found %d' % len(builds), loc(fn))
+    for b, t in builds:
+        sl = fn.slice(t['args'][1])
+        names = {short(c) for c in sl.calls} | {short(c) for c in sl.fnrefs}
+        bad = sorted(n for n in names if re.search(r'::(rev|filter|filter_map|skip|skip_while|take|take_while|step_by|sort\w*|dedup\w*|reverse|swap\w*|chain|zip|retain|pop|remove|truncate|insert)$', n))
+        uses_leaves = 'param1' in desc(fn, t['args'][1]) or 1 in {pl for pl, _f in sl.fields} or any(p == 1 for p in sl.params)
+        if bad or not uses_leaves:
+            rep.viol(rid, 'dfa-config:pattern-order', 'the patterns handed to the NFA compiler are not the leaves\' patterns in leaf order (adapters %s, reads leaves: %s)' % (bad, uses_leaves), loc(fn, t['line']))
 
 
 # --------------------------------------------------------------------------------------------
